@@ -212,3 +212,28 @@ def run(ctx, eng):
            'self._data_to_send = bytearray()', node=fi.node)
     ctx.assume('events (as opposed to frames) reported on a closed '
                'connection are outside this property')
+    # sending GOAWAY closes: every path that builds a GoAwayFrame in a
+    # public call or in the error path has fed SEND_GOAWAY to the
+    # connection machine (a GOAWAY that leaves the machine open lets every
+    # later call through)
+    for name in ('close_connection', '_terminate_connection'):
+        fi = eng.m.func('connection.H2Connection.' + name)
+        bad = []
+        n = 0
+        for p in cm.normal_paths(eng.I.run(fi)):
+            gf = [e for e in p.events if e.kind == 'new' and
+                  e.cls == 'GoAwayFrame']
+            if not gf:
+                continue
+            n += 1
+            emit = cm.calls_to(p, '_prepare_for_sending')
+            at = p.index(emit[0]) if emit else len(p.events)
+            steps = [s for s, ev, _ in cm.process_inputs(p)
+                     if p.index(ev) < at]
+            if 'SEND_GOAWAY' not in steps:
+                bad.append('a GOAWAY is emitted on a path that has not fed '
+                           'SEND_GOAWAY to the connection machine')
+        ctx.ob('ORD.goaway-closes', fi.qual, 'sending GOAWAY closes the '
+               'connection', n > 0 and not bad,
+               '; '.join(sorted(set(bad))) or 'SEND_GOAWAY precedes the '
+               'frame on all %d emitting paths' % n, node=fi.node)
